@@ -63,3 +63,27 @@ M("C16-exp-n2", "C16", "R16.3", ("polynomial.py", "    if n == 2:\n        retur
 M("C16-recombine-power", "C16", "R16.3", ("polynomial.py", "    xd = fast_exponent_by_squaring(x, d)", "    xd = fast_exponent_by_squaring(x, d - 1)"))
 N("C16-neutral-len", "C16", ("polynomial.py", "        for i in range(1, N + 1):\n            s += coeffs[i] * fast_exponent_by_squaring(x, i)", "        for i in range(1, len(coeffs)):\n            s += coeffs[i] * fast_exponent_by_squaring(x, i)"), ("floating_point_algorithms.py", "        for i in range(1, N + 1):\n            s += coeffs[i] * fast_exponent_by_squaring(ctx, x, i)", "        for i in range(1, len(coeffs)):\n            s += coeffs[i] * fast_exponent_by_squaring(ctx, x, i)"))
 N("C16-neutral-order", "C16", ("polynomial.py", "    a = fast_polynomial(x, coeffs[d:], reverse=reverse, scheme=scheme, _N=_N)\n    b = fast_polynomial(x, coeffs[:d], reverse=reverse, scheme=scheme, _N=_N)", "    b = fast_polynomial(x, coeffs[:d], reverse=reverse, scheme=scheme, _N=_N)\n    a = fast_polynomial(x, coeffs[d:], reverse=reverse, scheme=scheme, _N=_N)"))
+
+# ----------------------------------------------------------------------------- C10
+FPA = "floating_point_algorithms.py"
+M("C10-2sum-wrong-term", "C10", "R10.1", (FPA, "    if fast:\n        t = y - z\n    else:\n        t = (x - (s - z)) + (y - z)\n    if fix_overflow:", "    if fast:\n        t = y - z\n    else:\n        t = (x - (s - z)) + (y - s)\n    if fix_overflow:"))
+M("C10-fast2sum-sign", "C10", "R10.1", (FPA, "    if fast:\n        t = y - z\n    else:\n        t = (x - (s - z)) + (y - z)\n    if fix_overflow:", "    if fast:\n        t = z - y\n    else:\n        t = (x - (s - z)) + (y - z)\n    if fix_overflow:"))
+M("C10-2sum-overflow-test", "C10", "R10.1", (FPA, "        overflow = abs(z) > largest\n        t = ctx.select(overflow, 0, t)", "        overflow = abs(s) > largest\n        t = ctx.select(overflow, 0, t)"))
+M("C10-veltkamp-rescale", "C10", "R10.1", (FPA, "ctx.select(ax < 1, gd, gd * N))", "ctx.select(ax < 1, gd, gd * invN))"))
+M("C10-veltkamp-sign", "C10", "R10.1", (FPA, "    g = C * x_n\n    d = g - x_n\n    gd = g - d", "    g = C * x_n\n    d = g - x_n\n    gd = g + d"))
+M("C10-muldw-term", "C10", "R10.1", (FPA, "    t3 = t2 + xl * yh\n    xyl = t3 + xl * yl\n    return xyh, xyl", "    t3 = t2 + xl * yl\n    xyl = t3 + xl * yl\n    return xyh, xyl"))
+M("C10-muldekker-mixed-scale", "C10", "R10.1", (FPA, "        yh, yl = split_veltkamp(ctx, y, C=C, scale=scale, dtype=dtype)", "        yh, yl = split_veltkamp(ctx, y, C=C, scale=False, dtype=dtype)"))
+M("C10-alg-square-term", "C10", "R10.1", ("algorithms.py", "    t3 = t2 + xh * xl\n    xxl = t3 + xl * xl", "    t3 = t2 + xl * xl\n    xxl = t3 + xl * xl"))
+M("C10-alg-split-low", "C10", "R10.1", ("algorithms.py", "    xh = g + d\n    xl = x - xh\n    return xh, xl\n\n\ndef square_dekker", "    xh = g + d\n    xl = xh - x\n    return xh, xl\n\n\ndef square_dekker"))
+M("C10-utils-sum-drops-errors", "C10", "R10.1", ("utils.py", "        for n in seq[2:]:\n            s, t1 = add_2sum(s, n)\n            t = t + t1\n        return add_2sum(s, t)", "        for n in seq[2:]:\n            s, t1 = add_2sum(s, n)\n            t = t1\n        return add_2sum(s, t)"))
+M("C10-utils-double", "C10", "R10.1", ("utils.py", "    s = x + x\n    z = s - x\n    t = x - z\n    return s, t", "    s = x + x\n    z = s - x\n    t = z - x\n    return s, t"))
+M("C10-const-alg-fp64", "C10", "R10.2", ("algorithms.py", "fp64 = ctx.constant(2 ** (54 // 2) + 1, largest)", "fp64 = ctx.constant(2 ** (53 // 2) + 1, largest)"))
+M("C10-const-threshold", "C10", "R10.2", ("algorithms.py", "    fp16 = ctx.constant(2 ** (12 // 2) + 1, largest)\n    return ctx.select(largest > 1e308, fp64, ctx.select(largest > 1e38, fp32, fp16)).reference(\n        \"veltkamp_splitter_constant\"", "    fp16 = ctx.constant(2 ** (12 // 2) + 1, largest)\n    return ctx.select(largest > 1e308, fp64, ctx.select(largest > 1e39, fp32, fp16)).reference(\n        \"veltkamp_splitter_constant\""))
+M("C10-const-N", "C10", "R10.2", (FPA, "        N=dtype(2 ** ((p + 1) // 2)),", "        N=dtype(2 ** (p // 2)),"))
+M("C10-const-xmax", "C10", "R10.2", (FPA, "        x_max=dtype(2 ** (maxexp - p // 2) * (2 ** (p // 2) - 1)),", "        x_max=dtype(2 ** (maxexp - p // 2) * (2 ** (p // 2))),"))
+M("C10-wrapper-quick", "C10", "R10.3", ("apmath.py", "    return fpa.add_2sum(ctx, a, b, fast=True, fix_overflow=fix_overflow)", "    return fpa.add_2sum(ctx, a, b, fast=False, fix_overflow=fix_overflow)"))
+M("C10-wrapper-twoprod-scale", "C10", "R10.3", ("apmath.py", "    return fpa.mul_dekker(ctx, x, y, scale=scale, dtype=dtype, fix_overflow=fix_overflow, assume_fma=assume_fma)", "    return fpa.mul_dekker(ctx, x, y, scale=True, dtype=dtype, fix_overflow=fix_overflow, assume_fma=assume_fma)"))
+M("C10-wrapper-twosum-swapped", "C10", "R10.3", ("apmath.py", "    return fpa.add_2sum(ctx, x, y, fast=assume_fma, fix_overflow=fix_overflow)", "    return fpa.add_2sum(ctx, x, y, fast=fix_overflow, fix_overflow=assume_fma)"))
+N("C10-neutral-commute", "C10", (FPA, "    s = x + y\n    z = s - x\n    if fast:", "    s = y + x\n    z = s - x\n    if fast:"))
+N("C10-neutral-veltkamp-variant", "C10", ("algorithms.py", "    g = C * x\n    d = x - g\n    xh = g + d\n    xl = x - xh\n    return xh, xl\n\n\ndef square_dekker", "    g = x * C\n    delta = g - x\n    xh = g - delta\n    xl = x - xh\n    return xh, xl\n\n\ndef square_dekker"))
+N("C10-neutral-cross-order", "C10", (FPA, "    t2 = t1 + xh * yl\n    t3 = t2 + xl * yh\n    xyl = t3 + xl * yl", "    t2 = t1 + xl * yh\n    t3 = t2 + yl * xh\n    xyl = t3 + yl * xl"))
